@@ -240,6 +240,21 @@ MUTANTS = [
      "    if include_local_version:\n", "    if True:\n"),
     ("c09-stopiteration-fastpath", "C09", "rpyc/core/vinegar.py",
      "    if typ is StopIteration and (val is None or not (val.args or getattr(val, \"__dict__\", None))):", "    if typ is StopIteration:"),
+    # ---- C16
+    ("c16-accept-timeout-fatal", "C16", "rpyc/utils/server.py",
+     "            except socket.timeout:\n                pass\n            except socket.error:", "            except socket.error:"),
+    ("c16-worker-no-catchall", "C16", "rpyc/utils/server.py",
+     "            except Exception:\n                # \"Caught exception in Worker thread\" message\n                self.logger.exception(\"failed to serve client, caught exception\")\n                # wait a bit so that we do not loop too fast in case of error\n                time.sleep(0.2)",
+     "            except ZeroDivisionError:\n                pass"),
+    ("c16-service-instantiated-once", "C16", "rpyc/core/service.py",
+     "        if isinstance(self, type):  # autovivify if accessed as class method\n            self = self()",
+     "        if isinstance(self, type):  # autovivify if accessed as class method\n            cls = self\n            self = cls.__dict__.get('_the_one') or cls()\n            cls._the_one = self"),
+    ("c16-shared-object-table", "C16", "rpyc/core/protocol.py",
+     "        self._local_objects = RefCountingColl()", "        self._local_objects = _SHARED_OBJECTS"),
+    ("c16-threaded-serves-inline", "C16", "rpyc/utils/server.py",
+     "    def _accept_method(self, sock):\n        spawn(self._authenticate_and_serve_client, sock)", "    def _accept_method(self, sock):\n        self._authenticate_and_serve_client(sock)"),
+    ("c16-pool-no-requeue", "C16", "rpyc/utils/server.py",
+     "        # we've processed the maximum number of requests. Put back the connection in the active queue\n        self._active_connection_queue.put(fd)", "        pass"),
     # ---- C17
     ("c17-close-skips-clients", "C17", "rpyc/utils/server.py",
      "        for c in set(self.clients):\n            try:\n                c.shutdown(socket.SHUT_RDWR)\n            except Exception:\n                pass\n            c.close()\n        self.clients.clear()",
